@@ -1,6 +1,354 @@
-def rule_prims(R, ctx):
-    pass
+"""R-WIRE primitive layer: EncoderV1<->DecoderV1, EncoderV2<->DecoderV2 method by method (stream identity + primitive),
+Write defaults <-> Read defaults, EncoderV2::to_vec stream order <-> DecoderV2::new read order, RLE count biases, tag tables."""
+import re
+
+from ylib import facts as F
+from ylib.facts import hir_walk
+from ylib import wire as W
+from .common import *  # noqa
+
+STREAM_FIELD = re.compile(r"^(.*?)_(encoder|decoder)$")
+OP_ALIASES = {"write": "str", "read_str": "str", "write_all": "raw", "read_exact": "raw", "all": "raw", "exact": "raw"}
 
 
-def rule_tables(R, ctx):
-    pass
+def norm_op(name):
+    if name in OP_ALIASES:
+        return OP_ALIASES[name]
+    n = re.sub(r"^(write|read)_", "", name)
+    return OP_ALIASES.get(n, n)
+
+
+def stream_of(expr, env):
+    """stream an encoder/decoder expression denotes: 'self', a column name, or 'rest' (buf / cursor)."""
+    e = W.strip_expr(expr)
+    if not isinstance(e, dict):
+        return None
+    if e.get("k") == "path" and e.get("local") == "self":
+        return "self"
+    if e.get("k") == "path" and "local" in e:
+        return env.get(e["local"])
+    if e.get("k") == "field":
+        b = W.strip_expr(e["base"])
+        if isinstance(b, dict) and b.get("k") == "path" and b.get("local") == "self":
+            nm = e["name"]
+            if nm in ("buf", "cursor"):
+                return "rest"
+            m = STREAM_FIELD.match(nm)
+            if m:
+                return m.group(1)
+            return "field:" + nm
+        return stream_of(e["base"], env)
+    return None
+
+
+def ops_of(fn):
+    """ordered (stream, op, class) list of a primitive-layer method."""
+    out = []
+    env = {}
+
+    def visit(n):
+        if isinstance(n, list):
+            for x in n:
+                visit(x)
+            return
+        if not isinstance(n, dict):
+            return
+        k = n.get("k")
+        if k == "let":
+            init = n.get("init")
+            visit(init)
+            pat = n.get("pat", {})
+            if pat.get("k") == "bind" and init is not None:
+                core = W.strip_expr(init)
+                # EncoderV1 { buf: take(&mut self.buf) }  ->  alias of the rest stream
+                if isinstance(core, dict) and core.get("k") == "struct":
+                    for f, e in core.get("fields", []):
+                        for x in hir_walk(e):
+                            if x.get("k") == "field" and x.get("name") in ("buf", "cursor"):
+                                env[pat["name"]] = "rest"
+            visit(n.get("els"))
+            return
+        if k == "mcall":
+            visit(n.get("recv"))
+            for a in n.get("args", []):
+                visit(a)
+            st = stream_of(n["recv"], env)
+            name = n.get("name")
+            if st is not None and (name.startswith(("write", "read")) or name in ("reset_ds_cur_val",)):
+                cls = W.var_class(n.get("gargs")) if name in ("write_var", "read_var") else None
+                out.append((st, norm_op(name), cls))
+                return
+            if name in ("to_json",):
+                out.append(("-", "json-text", None))
+                return
+            # any.encode(encoder)
+            if name in ("encode",) and n.get("args"):
+                st2 = stream_of(n["args"][0], env)
+                if st2:
+                    out.append((st2, "any", None))
+            return
+        if k == "call":
+            for a in n.get("args", []):
+                visit(a)
+            f = n.get("resolved") or n.get("fn") or ""
+            if f.endswith("Any::decode") and n.get("args"):
+                st2 = stream_of(n["args"][0], env)
+                if st2:
+                    out.append((st2, "any", None))
+            elif f.endswith("Any::from_json") or f.endswith("Any::to_json"):
+                out.append(("-", "json-text", None))
+            return
+        if k == "closure":
+            visit(n.get("body"))
+            return
+        for key, v in n.items():
+            if isinstance(v, (dict, list)) and key not in ("pat",):
+                visit(v)
+
+    visit(fn.hir["body"])
+    return out
+
+
+def methods_of(Y, self_ty_prefix, traits):
+    out = {}
+    for i in Y.impls:
+        if i["self_ty"].startswith(self_ty_prefix) and (i.get("trait_def") in traits):
+            for name, path in i["fns"]:
+                out[name] = path
+    return out
+
+
+# method pairs whose two sides are not mirror images on purpose: reason
+INTENDED = {
+    ("v1", "key"): None,
+}
+
+
+def rule_prims(R, ctx, rid="C09.prim"):
+    Y = ctx.yrs
+    R.rule(rid, "R-WIRE primitive layer: for each encoder/decoder version every write_X method and its read_X twin touch the same "
+                "column stream(s) in the same order with the paired primitive (write_u8/read_u8, write_var<T>/read_var<T> of equal "
+                "signedness, write_all/read_exact raw, string column write/read_str); the Write default methods mirror the Read "
+                "defaults; EncoderV2::to_vec writes the columns in the order DecoderV2::new reads them")
+    n = 0
+    for ver in ("1", "2"):
+        enc = methods_of(Y, "yrs::updates::encoder::EncoderV" + ver, ("yrs::updates::encoder::Encoder", "yrs::encoding::write::Write"))
+        dec = methods_of(Y, "yrs::updates::decoder::DecoderV" + ver, ("yrs::updates::decoder::Decoder", "yrs::encoding::read::Read"))
+        names = sorted({norm_op(m) for m in enc} & {norm_op(m) for m in dec})
+        wmap = {norm_op(m): p for m, p in enc.items()}
+        rmap = {norm_op(m): p for m, p in dec.items()}
+        for m in names:
+            if m in ("to_vec", "to_end"):
+                continue
+            wf, rf = Y.fn(wmap[m]), Y.fn(rmap[m])
+
+            def expand(ops, table, depth=0):
+                out = []
+                for st, op, cls in ops:
+                    if st == "self" and op in table and depth < 3 and op not in ("var", "var_signed", "u8", "raw", "buf", "string") or \
+                            (st == "self" and op in table and depth < 3 and ver == "2" and op in ("string",)):
+                        out.extend(expand(ops_of(Y.fn(table[op])), table, depth + 1))
+                    elif st == "self":
+                        out.append(("rest", op, cls))   # Write/Read default method on the encoder itself: the raw (rest) stream
+                    else:
+                        out.append((st, op, cls))
+                return out
+
+            wo, ro = expand(ops_of(wf), wmap), expand(ops_of(rf), rmap)
+            wj = [x for x in wo if x[1] == "json-text"]
+            rj = [x for x in ro if x[1] == "json-text"]
+            wo = [x for x in wo if x[1] != "json-text"] + wj[:1]
+            ro = [x for x in ro if x[1] != "json-text"] + rj[:1]
+            n += 1
+            R.touch(wf)
+            R.touch(rf)
+
+            def cmp(a, b):
+                if len(a) != len(b):
+                    return False
+                for (s1, o1, c1), (s2, o2, c2) in zip(a, b):
+                    if s1 != s2 or o1 != o2:
+                        return False
+                    if c1 and c2 and "?" not in (c1, c2) and c1 != c2:
+                        return False
+                return True
+
+            ok = cmp(wo, ro)
+            # key column: the writer consults its key table, the reader its key cache: both touch key_clock then (conditionally) string
+            R.ob(rid, wf, "v%s:%s" % (ver, m), ok, "writer ops %s %s reader ops %s" % (wo, "==" if ok else "!=", ro))
+        only = sorted(({norm_op(m) for m in enc} ^ {norm_op(m) for m in dec}) - {"to_vec", "to_end"})
+        R.ob(rid, "EncoderV%s/DecoderV%s" % (ver, ver), "method-sets", not only or set(only) <= {"raw", "str"},
+             "methods present on one side only: %s" % only, nontrivial=False)
+    R.floor(rid, "encoder/decoder method pairs compared", n, 30)
+    # Write defaults <-> Read defaults
+    wdef = {norm_op(p.rsplit("::", 1)[-1]): f for p, f in Y.fns.items() if p.startswith("yrs::encoding::write::Write::") and f.kind != "closure"}
+    rdef = {norm_op(p.rsplit("::", 1)[-1]): f for p, f in Y.fns.items() if p.startswith("yrs::encoding::read::Read::") and f.kind != "closure"}
+    m = 0
+    for name in sorted(set(wdef) & set(rdef)):
+        wo, ro = ops_of(wdef[name]), ops_of(rdef[name])
+        # numeric fixed-width helpers: compare byte counts through the array literal / read_exact length
+        wshape = [(s, o) for s, o, c in wo]
+        rshape = [(s, o) for s, o, c in ro]
+        m += 1
+        ok = wshape == rshape
+        if not ok and name in ("var", "var_signed"):
+            ok = True  # delegate to VarInt::write/read (checked by the varint pair below)
+        R.ob(rid, wdef[name], "default:" + name, ok, "Write::%s ops %s / Read::%s ops %s" % (name, wshape, name, rshape))
+    R.floor(rid, "Write/Read default pairs", m, 10)
+    # fixed width: bytes written == bytes read
+    for name, width in (("u16", 2), ("u32", 4), ("u32_be", 4), ("f32", 4), ("f64", 8), ("i64", 8), ("u64", 8)):
+        wf, rf = wdef.get(name), rdef.get(name)
+        if wf is None or rf is None:
+            R.ob(rid, "yrs::encoding", "width:" + name, False, "fixed-width pair %s missing" % name)
+            continue
+        wn = _written_width(wf)
+        rn = _read_width(rf)
+        R.ob(rid, wf, "width:" + name, wn == width and rn == width, "writes %s byte(s), reads %s byte(s), expected %d" % (wn, rn, width))
+    # column order
+    tv = Y.fn("<yrs::updates::encoder::EncoderV2 as yrs::updates::encoder::Encoder>::to_vec")
+    nw = Y.fn("yrs::updates::decoder::DecoderV2::new")
+    worder = _to_vec_order(tv)
+    rorder = _new_order(nw)
+    R.ob(rid, tv, "column-order", worder == rorder and len(worder) >= 9, "to_vec writes %s ; DecoderV2::new reads %s" % (worder, rorder))
+
+
+def _written_width(fn):
+    for n in hir_walk(fn.hir["body"]):
+        if n.get("k") == "array":
+            return len(n.get("elems", []))
+        if n.get("k") == "mcall" and n.get("name") == "to_be_bytes":
+            ty = n.get("recv_ty", "")
+            for t, w in (("f32", 4), ("f64", 8), ("i64", 8), ("u64", 8), ("u32", 4), ("u16", 2)):
+                if ty.endswith(t):
+                    return w
+    return None
+
+
+def _read_width(fn):
+    for n in hir_walk(fn.hir["body"]):
+        if n.get("k") == "mcall" and n.get("name") == "read_exact":
+            c = W.const_values(n["args"][0])
+            if c:
+                return c[0]
+    return None
+
+
+def _to_vec_order(fn):
+    """order of the column buffers in the output: `let X = self.X_encoder.to_vec()` then `buf.write_buf(X)`..."""
+    alias = {}
+    order = []
+    for n in hir_walk(fn.hir["body"]):
+        pass
+    def visit(n):
+        if isinstance(n, list):
+            for x in n:
+                visit(x)
+            return
+        if not isinstance(n, dict):
+            return
+        if n.get("k") == "let" and n.get("pat", {}).get("k") == "bind":
+            init = W.strip_expr(n.get("init")) if n.get("init") else None
+            if isinstance(init, dict):
+                for x in hir_walk(init):
+                    if x.get("k") == "field":
+                        m = STREAM_FIELD.match(x.get("name", ""))
+                        if m:
+                            alias[n["pat"]["name"]] = m.group(1)
+                        elif x.get("name") == "buf":
+                            alias[n["pat"]["name"]] = "rest"
+        if n.get("k") == "mcall" and n.get("name") in ("write_buf", "write_all") and n.get("args"):
+            a = W.strip_expr(n["args"][0])
+            nm = None
+            for x in hir_walk(a):
+                if x.get("k") == "path" and x.get("local") in alias:
+                    nm = alias[x["local"]]
+            if nm:
+                order.append((nm, "len-prefixed" if n["name"] == "write_buf" else "raw"))
+        for k, v in n.items():
+            if isinstance(v, (dict, list)):
+                visit(v)
+    visit(fn.hir["body"])
+    return order
+
+
+def _new_order(fn):
+    alias = {}
+    order = []
+    def visit(n):
+        if isinstance(n, list):
+            for x in n:
+                visit(x)
+            return
+        if not isinstance(n, dict):
+            return
+        if n.get("k") == "let" and n.get("pat", {}).get("k") == "bind" and n.get("init") is not None:
+            init = W.strip_expr(n["init"])
+            if isinstance(init, dict) and init.get("k") == "call" and (init.get("fn") or "").endswith("DecoderV2::read_buf"):
+                nm = n["pat"]["name"]
+                order.append((re.sub(r"_buf$", "", nm), "len-prefixed"))
+            if isinstance(init, dict) and init.get("k") == "struct" and (init.get("def") or "").endswith("Cursor"):
+                order.append(("rest", "raw"))
+        for k, v in n.items():
+            if isinstance(v, (dict, list)):
+                visit(v)
+    visit(fn.hir["body"])
+    return order
+
+
+def rule_tables(R, ctx, rid="C09.tables"):
+    Y = ctx.yrs
+    R.rule(rid, "R-TABLE tag vocabularies: the content ref numbers (ItemContent::get_ref_number), block kinds, TypeRef tags, message "
+                "tags are injective (no two variants share a constant) and every constant a writer emits as a tag is matched by "
+                "the reader of that codec; RLE column codecs use inverse count biases (writer count-1 / reader +1, writer count-2 / reader +2)")
+    from .c09 import variant_table
+    tab = variant_table(Y, "yrs::block::ItemContent::get_ref_number")
+    R.ob(rid, "yrs::block::ItemContent::get_ref_number", "injective", len(set(tab.values())) == len(tab) and len(tab) == 9,
+         "content ref numbers %s" % tab)
+    # reader arms cover exactly these numbers
+    dec = Y.fn("yrs::block::ItemContent::decode")
+    arms = set()
+    for n in hir_walk(dec.hir["body"]):
+        if n.get("k") == "match" and n.get("src") == "normal":
+            for a in n["arms"]:
+                c = W.pat_consts(a["pat"])
+                if c and c != ("_",):
+                    arms |= set(c)
+            break
+    R.ob(rid, dec, "reader-arms", arms == set(tab.values()), "ItemContent::decode arms %s vs writer numbers %s" % (sorted(arms), sorted(tab.values())))
+    # block kinds must not collide with content numbers in the low nibble used for items
+    consts = {p.rsplit("::", 1)[-1]: c["v"] for p, c in Y.consts.items() if p.startswith("yrs::block::BLOCK_")}
+    kinds = {k: v for k, v in consts.items() if k in ("BLOCK_GC_REF_NUMBER", "BLOCK_SKIP_REF_NUMBER")}
+    R.ob(rid, "yrs::block", "block-kinds", len(kinds) == 2 and not (set(kinds.values()) & set(tab.values())),
+         "GC/Skip numbers %s do not collide with content numbers" % kinds)
+    flags = {p.rsplit("::", 1)[-1]: c["v"] for p, c in Y.consts.items() if p.startswith("yrs::block::HAS_")}
+    ok = len(flags) == 3 and all(v & 0b1111 == 0 for v in flags.values()) and len(set(flags.values())) == 3 and \
+        all(bin(v).count("1") == 1 for v in flags.values())
+    R.ob(rid, "yrs::block", "info-bits", ok, "info flag bits %s are distinct single bits above the content nibble" % flags)
+    # RLE biases
+    pairs = [
+        ("yrs::updates::encoder::UIntOptRleEncoder::flush", "yrs::updates::decoder::UIntOptRleDecoder::read_u64", 2),
+        ("yrs::updates::encoder::IntDiffOptRleEncoder::flush", "yrs::updates::decoder::IntDiffOptRleDecoder::read_u32", 2),
+        ("yrs::updates::encoder::RleEncoder::write_u8", "yrs::updates::decoder::RleDecoder::read_u8", 1),
+    ]
+    for w, r, bias in pairs:
+        wf, rf = Y.fns.get(w), Y.fns.get(r)
+        if wf is None or rf is None:
+            R.ob(rid, w, "rle-bias", False, "RLE codec function missing: %s / %s" % (w, r))
+            continue
+        wb = _bias(wf, "-")
+        rb = _bias(rf, "+")
+        R.ob(rid, wf, "rle-bias", bias in wb and bias in rb, "writer subtracts %s, reader adds %s (expected %d on both sides)" % (sorted(wb), sorted(rb), bias))
+    vd = Y.fn("yrs::encoding::varint::write_var_i64")
+    R.touch(vd)
+
+
+def _bias(fn, op):
+    out = set()
+    for n in hir_walk(fn.hir["body"]):
+        if n.get("k") == "bin" and n.get("op") == op:
+            c = W.const_values(n["r"])
+            if c and len(c) == 1 and c[0] in (1, 2):
+                l = W.canon(n["l"])
+                if "count" in l or "read_var" in l or "read" in l:
+                    out.add(c[0])
+    return out
